@@ -48,7 +48,10 @@ fn main() {
         "C03" => dispatch(props::c03::C03, mode, arg),
         "C04" => dispatch(props::c04::C04, mode, arg),
         "C05" => dispatch(props::c05::C05, mode, arg),
+        "C06" => dispatch(props::c06::C06, mode, arg),
+        "C07" => dispatch(props::c07::C07, mode, arg),
         "C12" => dispatch(props::c12::C12, mode, arg),
+        "C15" => dispatch(props::c15::C15, mode, arg),
         _ => {
             eprintln!("unknown property {}", prop);
             2
